@@ -35,10 +35,14 @@ EXPLANATION = ('C08: the real circusd.main() on a generated configuration (1-2 w
                'exclusive operation; and the pid-file protocol over structured file contents. ')
 
 TRIGGERS = ('quit', 'quit_waiting', int(signal.SIGTERM), int(signal.SIGINT), int(signal.SIGQUIT))
-PRE = ('none', 'incr', 'restart', 'reload', 'kill')
+PRE = ('none', 'incr', 'restart', 'reload', 'kill', 'late_socket')
 
 
-def _config(tmp, stubborn, two, warm):
+def _config(tmp, stubborn, two, warm, nosock=False):
+    if nosock:
+        return '\n'.join(['[circus]', 'check_delay = 1', 'endpoint = tcp://127.0.0.1:5555', 'pubsub_endpoint = tcp://127.0.0.1:5556',
+                          'pidfile = %s' % os.path.join(tmp, 'circusd.pid'), '',
+                          '[watcher:web]', 'cmd = webprog', 'numprocesses = 2', 'graceful_timeout = 0.4', ''])
     lines = ['[circus]', 'check_delay = 1', 'endpoint = tcp://127.0.0.1:5555', 'pubsub_endpoint = tcp://127.0.0.1:5556',
              'pidfile = %s' % os.path.join(tmp, 'circusd.pid'), '',
              '[watcher:web]', 'cmd = webprog --fd $(circus.sockets.web)', 'numprocesses = 2', 'use_sockets = True',
@@ -67,7 +71,7 @@ def c08_shutdown(ti: int, pi: int, d: int, late: int, rep: int) -> bool:
     tmp = tempfile.mkdtemp(prefix='c08_')
     cfgpath = os.path.join(tmp, 'circus.ini')
     with open(cfgpath, 'w') as f:
-        f.write(_config(tmp, S.get('stubborn', False), S.get('two', True), S.get('warm', 0)))
+        f.write(_config(tmp, S.get('stubborn', False), S.get('two', True), S.get('warm', 0), nosock=(pre == 'late_socket')))
     old_argv = sys.argv
     state = {'fired': False, 'hung': False, 'pre_req': None, 'quit_req': None}
     try:
@@ -119,6 +123,11 @@ def c08_shutdown(ti: int, pi: int, d: int, late: int, rep: int) -> bool:
                     state['pre_req'] = w.send('restart', name='web', match='simple')
                 elif pre == 'reload':
                     state['pre_req'] = w.send('reload', name='web')
+                elif pre == 'late_socket':
+                    # a managed socket is added to a daemon that started without any, by reloadconfig
+                    with open(cfgpath, 'a') as f_:
+                        f_.write('\n[socket:late]\npath = %s\n' % os.path.join(tmp, 'late.sock'))
+                    state['pre_req'] = w.send('reloadconfig', waiting=True)
                 else:
                     state['pre_req'] = w.send('kill', name='web')
 
@@ -137,7 +146,9 @@ def c08_shutdown(ti: int, pi: int, d: int, late: int, rep: int) -> bool:
 
             def by_time():
                 pre_request()
-                if late == 0:
+                if pre == 'late_socket':
+                    w.vloop.call_later(1.0 + 0.1 * late, fire)       # after the reloadconfig has completed
+                elif late == 0:
                     fire()
                 else:
                     w.vloop.call_later(0.05 if late == 1 else 0.3, fire)
@@ -189,9 +200,12 @@ def c08_shutdown(ti: int, pi: int, d: int, late: int, rep: int) -> bool:
                 if s.fileno() != -1:
                     rt.note('managed socket %s left open', n)
                     ok = False
-            if os.path.exists(os.path.join(tmp, 'web.sock')):
-                rt.note('unix socket file left behind')
-                ok = False
+            for sockfile in ('web.sock', 'late.sock'):
+                if os.path.exists(os.path.join(tmp, sockfile)):
+                    rt.note('unix socket file %s left behind', sockfile)
+                    ok = False
+            if pre == 'late_socket' and 'late' not in arb.sockets:
+                return rt.skip()          # the reloadconfig did not add the socket (refused): nothing to check
             if os.path.exists(os.path.join(tmp, 'circusd.pid')):
                 rt.note('pid file left behind')
                 ok = False
